@@ -616,6 +616,15 @@ def mutate_channel_signed(run, env, rng, case, txo, channel, kind, tx):
     n += 1
     if _still_valid(lambda: txo.is_signed_by(other, env.ledger)):
         return 'claim validates against a different channel (different key)'
+    # the SAME channel (same claim id, hence same claim hash) after its signing key was replaced by an update
+    rotated = Output.pay_update_claim_pubkey_hash(CENT, channel.claim_name, channel.claim_id, Claim(), rng.randbytes(20))
+    rotated.set_channel_private_key(env.root.child(KeyPath.CHANNEL).child(40 + rng.randrange(5)))
+    Transaction().add_inputs([Input.spend(funding_output(rng, COIN, rng.randbytes(20), 0))]).add_outputs([rotated])
+    n += 1
+    if rotated.claim_hash == channel.claim_hash and \
+            rotated.claim.channel.public_key_bytes != channel.claim.channel.public_key_bytes and \
+            _still_valid(lambda: txo.is_signed_by(rotated, env.ledger)):
+        return 'claim still validates against its channel after the channel replaced its signing key (same claim id, other key)'
     # another channel claim that copies the signer's PUBLIC key (public data): different claim id, same key
     twin = Output.pay_claim_name_pubkey_hash(CENT, '@twin', Claim(), rng.randbytes(20))
     twin.claim.channel.public_key_bytes = channel.claim.channel.public_key_bytes
@@ -850,6 +859,120 @@ def check_sign_sequences(run, model, env, rng, idx):
         run.compare('C04.object_history', case, impl_states, mod_states)
 
 
+def check_wallet_history(run, loop, rng, variant):
+    """the channel link the WALLET attaches: a persisted history (channel, stream A, plain channel update, key rotation, stream B,
+    update of B re-signed with the attached channel) read back through Database.get_streams / get_channels; every listed stream
+    must validate against the channel output the wallet links it to, and what is signed with that link must validate against the
+    channel as it exists on chain (checked with independent ecdsa over the raw transactions as well)"""
+    d = tempfile.mkdtemp(prefix='c04w_')
+    ledger = Ledger({'db': Database(os.path.join(d, 'blockchain.db')), 'headers': Headers(':memory:')})
+    loop.run_until_complete(ledger.db.open())
+    case = {'kind': 'wallet-history', 'variant': variant}
+    run.case(case, nontrivial=True, sample=False)
+    run.count('wallet-history')
+    problems = []
+
+    async def scenario():
+        wallet = Wallet()
+        account = Account.from_dict(ledger, wallet, {
+            'seed': 'carbon smart garage balance margin twelve chest sword toast envelope bottom stomach absent'})
+        addresses = await account.ensure_address_gap()
+        holding = (await account.receiving.get_addresses(limit=1))[0]
+
+        async def confirm(tx, height):
+            tx = Transaction(tx.raw, height=height, is_verified=True)
+            for a in addresses:
+                await ledger.db.save_transaction_io(tx, a, ledger.address_to_hash160(a), '')
+            return tx
+
+        feeder = Transaction().add_outputs([Output.pay_pubkey_hash(100 * COIN, b'\1' * 20)])
+        fund = Transaction().add_inputs([Input.spend(feeder.outputs[0])]).add_outputs(
+            [Output.pay_pubkey_hash(5 * COIN, ledger.address_to_hash160(holding)) for _ in range(10)])
+        await confirm(fund, 1)
+
+        async def current_channel():
+            chans = await ledger.db.get_channels(wallet=wallet, accounts=[account])
+            return chans[0] if len(chans) == 1 else None
+
+        async def listed(name):
+            return {x.claim_name: x for x in await ledger.db.get_streams(wallet=wallet, accounts=[account])}.get(name)
+
+        async def publish(name, channel, height):
+            claim = Claim()
+            claim.stream.title = name
+            tx = await Transaction.claim_create(name, claim, CENT, holding, [account], account, channel)
+            tx.outputs[0].sign(channel)
+            await tx.sign([account])
+            await confirm(tx, height)
+            return tx
+
+        def check(step, stream, channel_now, signed_with_pub, raw):
+            linked = stream.channel if stream is not None else None
+            if linked is None:
+                problems.append(f'{step}: the wallet attaches no channel to the signed stream')
+                return
+            try:
+                ok = bool(stream.is_signed_by(linked, ledger))
+            except Exception as e:  # noqa
+                ok = f'{type(e).__name__}: {e}'
+            if ok is not True:
+                problems.append(f'{step}: a correctly signed stream does not validate against the channel output the wallet '
+                                f'links it to ({ok}); linked {linked.id[:8]}:{linked.position}, current channel '
+                                f'{channel_now.id[:8]}:{channel_now.position}')
+            if not independent_channel_verdict(raw, 0, 'claim', signed_with_pub):
+                problems.append(f'{step}: harness: independent verification of the published stream fails')
+
+        c = Claim()
+        c.channel.title = 'chan'
+        tx = await Transaction.claim_create('@chan', c, CENT, holding, [account], account)
+        key1 = await account.generate_channel_private_key()
+        tx.outputs[0].set_channel_private_key(key1)
+        await tx.sign([account])
+        await confirm(tx, 2)
+        ptx = await publish('a', await current_channel(), 3)
+        check('after publish A', await listed('a'), await current_channel(), key1.public_key.pubkey_bytes, ptx.raw)
+        height = 4
+        if variant != 'rotate-at-once':
+            old = await current_channel()
+            tx = await Transaction.claim_update(old, old.claim, CENT, holding, [account], account)
+            tx.outputs[0].private_key = old.private_key
+            await tx.sign([account])
+            await confirm(tx, height)
+            height += 1
+            check('after a plain channel update', await listed('a'), await current_channel(), key1.public_key.pubkey_bytes, ptx.raw)
+        old = await current_channel()
+        tx = await Transaction.claim_update(old, old.claim, CENT, holding, [account], account)
+        key2 = await account.generate_channel_private_key()
+        tx.outputs[0].set_channel_private_key(key2)
+        await tx.sign([account])
+        await confirm(tx, height)
+        chan = await current_channel()
+        btx = await publish('b', chan, height + 1)
+        b = await listed('b')
+        check('after key rotation + publish B', b, chan, key2.public_key.pubkey_bytes, btx.raw)
+        signer = b.channel if b is not None else None
+        if signer is not None and signer.has_private_key:
+            tx = await Transaction.claim_update(b, b.claim, CENT, holding, [account], account, signer)
+            tx.outputs[0].sign(signer)
+            await tx.sign([account])
+            await confirm(tx, height + 2)
+            if not independent_channel_verdict(tx.raw, 0, 'claim', key2.public_key.pubkey_bytes):
+                problems.append('an update of B signed with the channel the wallet attached to B does not verify under the key the '
+                                'channel has on chain (independent ecdsa over the raw transaction)')
+        else:
+            problems.append('stream B has no usable signing channel attached')
+
+    try:
+        loop.run_until_complete(scenario())
+    except Exception as e:  # noqa
+        problems.append(f'history raised {type(e).__name__}: {e}')
+    finally:
+        loop.run_until_complete(ledger.db.close())
+        shutil.rmtree(d, ignore_errors=True)
+    if problems:
+        run.violation(case, '; '.join(problems[:3]), signature={'kind': 'wallet-history', 'variant': variant})
+
+
 def check_legacy(run, model, env, rng):
     for entry in json.load(open(CORPUS)):
         stream = Transaction(bytes.fromhex(entry['txs']['stream_tx'])).outputs[0]
@@ -1041,6 +1164,8 @@ def main(run):
     try:
         check_legacy(run, model, env, rng)
         check_resolve(run, env, rng)
+        for variant in ('update-then-rotate', 'rotate-at-once'):
+            check_wallet_history(run, loop, rng, variant)
         # compact-size boundaries inside the signed preimage: counts and script lengths of exactly 252..254, 65535
         for L in (252, 253, 254):
             check_input_signatures(run, model, env, rng, 100000 + L, boundary='output-script', boundary_len=L)
